@@ -136,11 +136,13 @@ pub struct Source {
     pub data: Vec<u8>,
     pub num_glyphs: u16,
     pub small: bool,
+    /// large font used only for its special glyphs and thresholds in the quick tier (few lists)
+    pub light: bool,
 }
 
 fn load_sources(thorough: bool) -> Vec<Source> {
     let mut v = Vec::new();
-    let mut add = |rel: &str, small: bool| {
+    let mut add = |rel: &str, small: u8| {
         let path = format!("/repo/tests/{}", rel);
         if let Ok(d) = std::fs::read(&path) {
             if d.is_empty() {
@@ -155,7 +157,7 @@ fn load_sources(thorough: bool) -> Vec<Source> {
             .ok()
             .flatten();
             if let Some(ng) = ng {
-                v.push(Source { name: rel.to_string(), data: d, num_glyphs: ng, small });
+                v.push(Source { name: rel.to_string(), data: d, num_glyphs: ng, small: small == 1, light: small == 2 });
             }
         }
     };
@@ -169,10 +171,16 @@ fn load_sources(thorough: bool) -> Vec<Source> {
         "fonts/woff2/SFNT-TTF-Composite.woff2",
         "fonts/woff1/valid-005.woff",
     ] {
-        add(f, true);
+        add(f, 1);
     }
     for f in ["fonts/opentype/Klei.otf", "fonts/opentype/OpenSans-Regular.ttf", "fonts/noto/NotoSansThai-Regular.ttf", "fonts/opentype/cff2/SourceSans3-Instance.256.otf", "fonts/opentype/TerminusTTF-4.47.0.ttf", "fonts/noto/NotoNaskhArabic-Regular.ttf", "fonts/opentype/SourceCodePro-Regular.otf"] {
-        add(f, false);
+        add(f, 0);
+    }
+    if !thorough {
+        // large fonts, quick tier: only their special glyphs (composites with transforms ...) and the cmap thresholds
+        for f in ["fonts/arabic/amiri-regular.ttf", "fonts/malayalam/Rachana-Regular.ttf"] {
+            add(f, 2);
+        }
     }
     if thorough {
         for f in [
@@ -180,19 +188,75 @@ fn load_sources(thorough: bool) -> Vec<Source> {
             "fonts/noto/NotoSansJP-Regular.otf",
             "fonts/arabic/amiri-regular.ttf",
             "fonts/noto/NotoSansDevanagari-Regular.ttf",
+            "fonts/malayalam/Rachana-Regular.ttf",
             "fonts/opentype/Ubuntu Mono with Numderline.ttf",
             "fonts/variable/Zycon.ttf",
         ] {
-            add(f, f.contains("Zycon"));
+            add(f, f.contains("Zycon") as u8);
         }
     }
     v
+}
+
+/// One glyph id per class of composite glyph in a bare TrueType sfnt: class = which transform forms (scale, x/y scale,
+/// 2x2), argument forms (words, point numbers), offset-scaling flags and instructions its components use.
+fn special_composites(data: &[u8]) -> Vec<u16> {
+    let Some(f) = otmodel::sfnt::parse(data) else { return Vec::new() };
+    let (Some(head), Some(maxp), Some(loca), Some(glyf)) = (f.table(otmodel::tag(b"head")), f.table(otmodel::tag(b"maxp")), f.table(otmodel::tag(b"loca")), f.table(otmodel::tag(b"glyf"))) else { return Vec::new() };
+    if head.len() < 54 || maxp.len() < 6 {
+        return Vec::new();
+    }
+    let long = u16::from_be_bytes([head[50], head[51]]) != 0;
+    let n = u16::from_be_bytes([maxp[4], maxp[5]]);
+    let Some(offs) = read::loca_offsets(loca, n, long) else { return Vec::new() };
+    let mut seen: std::collections::BTreeSet<u16> = std::collections::BTreeSet::new();
+    let mut out = Vec::new();
+    for g in 0..n as usize {
+        let (a, b) = (offs[g] as usize, offs[g + 1] as usize);
+        if b <= a || b > glyf.len() || b - a < 12 {
+            continue;
+        }
+        let rec = &glyf[a..b];
+        if i16::from_be_bytes([rec[0], rec[1]]) >= 0 {
+            continue;
+        }
+        let mut p = 10;
+        let mut class = 0u16;
+        loop {
+            if p + 4 > rec.len() {
+                break;
+            }
+            let flags = u16::from_be_bytes([rec[p], rec[p + 1]]);
+            class |= flags & (0x0001 | 0x0008 | 0x0040 | 0x0080 | 0x0100 | 0x0200 | 0x0800 | 0x1000);
+            if flags & 0x0002 == 0 {
+                class |= 0x4000; // point-number arguments
+            }
+            p += 4 + if flags & 1 != 0 { 4 } else { 2 };
+            p += if flags & 0x0008 != 0 { 2 } else if flags & 0x0040 != 0 { 4 } else if flags & 0x0080 != 0 { 8 } else { 0 };
+            if flags & 0x0020 == 0 {
+                break;
+            }
+        }
+        if seen.insert(class) {
+            out.push(g as u16);
+        }
+    }
+    out
 }
 
 /// glyph lists for a source (every list starts with 0 and has no duplicates)
 fn glyph_lists(src: &Source, thorough: bool) -> Vec<Vec<u16>> {
     let n = src.num_glyphs;
     let mut out: Vec<Vec<u16>> = Vec::new();
+    // every class of composite glyph alone and next to its first component's neighbours
+    for g in special_composites(&src.data).into_iter().take(if thorough { 64 } else { 24 }) {
+        if g != 0 {
+            out.push(vec![0, g]);
+            if g + 1 < n {
+                out.push(vec![0, g + 1, g]);
+            }
+        }
+    }
     if src.small {
         // every ordered duplicate-free list starting with 0 up to a length bound
         let max_len = if n <= 6 { n as usize } else if thorough { 5 } else { 4 }.min(n as usize);
@@ -213,7 +277,7 @@ fn glyph_lists(src: &Source, thorough: bool) -> Vec<Vec<u16>> {
         rec(&mut vec![0], n, max_len, &mut out);
     } else {
         out.push(vec![0]);
-        let step = if thorough { 1 } else { (n / 160).max(1) };
+        let step = if thorough { 1 } else if src.light { (n / 12).max(1) } else { (n / 160).max(1) };
         let mut g = 1;
         while g < n {
             out.push(vec![0, g]);
@@ -243,7 +307,7 @@ fn glyph_lists(src: &Source, thorough: bool) -> Vec<Vec<u16>> {
                 let mut non_mac: std::collections::BTreeSet<u16> = std::collections::BTreeSet::new();
                 for (c, g) in &map {
                     match char::from_u32(*c) {
-                        Some(ch) if allsorts::macroman::is_macroman(ch) => mac_glyphs.push(*g),
+                        Some(ch) if mac_allowed(ch as u32) => mac_glyphs.push(*g),
                         _ => {
                             non_mac.insert(*g);
                         }
@@ -280,7 +344,7 @@ fn glyph_lists(src: &Source, thorough: bool) -> Vec<Vec<u16>> {
                         let consecutive = w.windows(2).all(|p| p[1].0 == p[0].0 + 1);
                         let gl: Vec<u16> = w.iter().map(|x| x.1).collect();
                         let distinct = gl.iter().all(|g| *g != 0) && (0..win).all(|a| (a + 1..win).all(|b| gl[a] != gl[b]));
-                        let is_mac = char::from_u32(w[0].0).map_or(false, allsorts::macroman::is_macroman) && w[0].0 >= 0x41;
+                        let is_mac = mac_allowed(w[0].0) && w[0].0 >= 0x41;
                         if consecutive && distinct && (is_mac == want_mac) && w[0].0 >= 0x41 {
                             windows.push(gl);
                             want_mac = !want_mac;
@@ -290,7 +354,7 @@ fn glyph_lists(src: &Source, thorough: bool) -> Vec<Vec<u16>> {
                         }
                     }
                     let astral_g: Option<u16> = map.iter().find(|(c, g)| **c > 0xFFFF && **g != 0).map(|(_, g)| *g);
-                    let bmp_g: Option<u16> = map.iter().find(|(c, g)| **c > 0x2000 && **c <= 0xFFFF && **g != 0 && char::from_u32(**c).map_or(false, |ch| !allsorts::macroman::is_macroman(ch))).map(|(_, g)| *g);
+                    let bmp_g: Option<u16> = map.iter().find(|(c, g)| **c > 0x2000 && **c <= 0xFFFF && **g != 0 && !mac_allowed(**c)).map(|(_, g)| *g);
                     let gap_g: Option<u16> = unmapped.first().copied();
                     let max_sel = if thorough { 4 } else { 3 };
                     for w in &windows {
@@ -334,6 +398,24 @@ fn glyph_lists(src: &Source, thorough: bool) -> Vec<Vec<u16>> {
                         }
                     }
                 }
+                // the Mac Roman characters with the highest code points (dagger ... trade mark, fraction slash, fi and fl
+                // ligatures, Apple logo): all together and one by one
+                {
+                    let mut hi: Vec<u16> = Vec::new();
+                    for (c, g) in map.iter() {
+                        if *c > 0x2000 && *g != 0 && mac_byte_of(*c).is_some() && !hi.contains(g) {
+                            hi.push(*g);
+                        }
+                    }
+                    if !hi.is_empty() {
+                        let mut l = vec![0u16];
+                        l.extend(hi.iter());
+                        out.push(l);
+                        for g in hi.iter().rev().take(6) {
+                            out.push(vec![0, *g]);
+                        }
+                    }
+                }
                 // astral / BMP-only retained sets
                 let astral: Vec<u16> = map.iter().filter(|(c, _)| **c > 0xFFFF).map(|(_, g)| *g).take(3).collect();
                 if !astral.is_empty() {
@@ -349,6 +431,39 @@ fn glyph_lists(src: &Source, thorough: bool) -> Vec<Vec<u16>> {
         }
     }
     out
+}
+
+/// Mac OS Roman per Apple's ROMAN.TXT (independent of allsorts' tables). allsorts documents the PDF MacRomanEncoding
+/// variant, which lacks 15 mathematical symbols / the Apple logo and has CURRENCY SIGN instead of EURO SIGN at 0xDB:
+/// those characters MAY be kept or dropped by a Mac Roman target; every other Mac Roman character MUST be kept.
+const MAC_OPTIONAL_BYTES: [u8; 16] = [0xAD, 0xB0, 0xB2, 0xB3, 0xB6, 0xB7, 0xB8, 0xB9, 0xBA, 0xBD, 0xC3, 0xC5, 0xC6, 0xD7, 0xF0, 0xDB];
+
+fn mac_byte_of(ch: u32) -> Option<u8> {
+    if ch < 0x80 {
+        return Some(ch as u8);
+    }
+    otmodel::cmapenc::MAC_ROMAN_HIGH.iter().position(|u| *u == ch).map(|i| 0x80 + i as u8)
+}
+
+/// characters a Mac Roman target must keep
+fn mac_required(ch: u32) -> bool {
+    matches!(mac_byte_of(ch), Some(b) if b >= 0x20 && b != 0x7F && !MAC_OPTIONAL_BYTES.contains(&b))
+}
+
+/// characters a Mac Roman target may keep
+fn mac_allowed(ch: u32) -> bool {
+    mac_byte_of(ch).is_some() || ch == 0xA4
+}
+
+/// decoding of a (1,0) output subtable: ROMAN.TXT, with 0xDB read as CURRENCY SIGN (the PDF variant allsorts documents)
+fn mac_char_of(byte: u8) -> u32 {
+    if byte == 0xDB {
+        0xA4
+    } else if byte < 0x80 {
+        byte as u32
+    } else {
+        otmodel::cmapenc::MAC_ROMAN_HIGH[byte as usize - 0x80]
+    }
 }
 
 struct Case<'a> {
@@ -483,6 +598,8 @@ fn check_case(ctx: &Ctx, which: Which, case: &Case<'_>, src_map: &Option<(String
             let macroman_target = case.opt == Opt::PrinceMacRoman;
             // expected output map in *character* space
             let mut expect: BTreeMap<u32, u16> = BTreeMap::new();
+            // Mac Roman target only: characters that may be kept or dropped (if kept, with this glyph)
+            let mut optional: BTreeMap<u32, u16> = BTreeMap::new();
             for (&code, &g) in smap.iter() {
                 if let Some(&n) = new_id.get(&g) {
                     if n == 0 {
@@ -492,15 +609,15 @@ fn check_case(ctx: &Ctx, which: Which, case: &Case<'_>, src_map: &Option<(String
                     let ch = match enc.as_str() {
                         "Unicode" => Some(code),
                         "Symbol" => Some(code),
-                        "AppleRoman" => allsorts::macroman::macroman_to_char(code as u8).map(|c| c as u32),
+                        "AppleRoman" => Some(mac_char_of(code as u8)),
                         _ => None,
                     };
                     if let Some(ch) = ch {
                         if macroman_target {
-                            if let Some(c) = char::from_u32(ch) {
-                                if allsorts::macroman::is_macroman(c) {
-                                    expect.entry(ch).or_insert(n);
-                                }
+                            if mac_required(ch) {
+                                expect.entry(ch).or_insert(n);
+                            } else if mac_allowed(ch) {
+                                optional.entry(ch).or_insert(n);
                             }
                         } else {
                             expect.entry(ch).or_insert(n);
@@ -511,7 +628,7 @@ fn check_case(ctx: &Ctx, which: Which, case: &Case<'_>, src_map: &Option<(String
             // observed output map in character space
             let mut observed: BTreeMap<u32, u16> = BTreeMap::new();
             for (&code, &g) in omap.iter() {
-                let ch = if out_pid_eid == (1, 0) { allsorts::macroman::macroman_to_char(code as u8).map(|c| c as u32) } else { Some(code) };
+                let ch = if out_pid_eid == (1, 0) { Some(mac_char_of(code as u8)) } else { Some(code) };
                 if let Some(ch) = ch {
                     observed.insert(ch, g);
                 }
@@ -528,7 +645,7 @@ fn check_case(ctx: &Ctx, which: Which, case: &Case<'_>, src_map: &Option<(String
                 }
             }
             for (ch, g) in observed.iter() {
-                if *g != 0 && expect.get(ch) != Some(g) {
+                if *g != 0 && expect.get(ch) != Some(g) && optional.get(ch) != Some(g) {
                     let key = if out_pid_eid == (1, 0) && expect.get(ch).map_or(false, |n| *n > 255) { "C08:macroman-format0-truncates-glyph-id-above-255" } else { "C08:character-not-in-source-mapping-is-mapped" };
                     ctx.violation(key, || json!({"case": case.describe(), "character": ch, "observed_glyph": g, "expected": expect.get(ch), "output_cmap_record": out_pid_eid}));
                     break;
@@ -703,7 +820,7 @@ fn replay_which(w: &Value, which: Which) -> Result<(), String> {
         let m = p.read_table_data(tag::MAXP).map_err(|e| format!("{:?}", e))?;
         u16::from_be_bytes([m[4], m[5]])
     };
-    let src = Source { name: fontname.to_string(), data, num_glyphs: ng, small: true };
+    let src = Source { name: fontname.to_string(), data, num_glyphs: ng, small: true, light: false };
     let ctx = Ctx::new(which.id(), mcx::Tier::Quick, "model_checking");
     let map = guard(|| source_selected_map(&src.data)).ok().flatten();
     check_case(&ctx, which, &Case { src: &src, list: &list, opt }, &map);
